@@ -2064,6 +2064,10 @@ impl Connection {
             _ => unreachable!("first packet must be delivered in Handshake state"),
         }
 
+        // Remember this packet number so that a duplicate of the first Initial is discarded
+        // like any other duplicate packet.
+        self.spaces[SpaceId::Initial].dedup.insert(packet_number);
+
         self.on_packet_authenticated(
             now,
             SpaceId::Initial,
